@@ -89,10 +89,15 @@ Section Safety.
   Definition pool (s : st) : list N :=
     map p_id (released s) ++ map (fun e => p_id (snd e)) (buf s).
 
+  Definition locs_ok (s : st) : Prop := loc_ok (filled s) /\ loc_ok (active s).
+
   (* what every internal transition guarantees *)
   Record rel (s s' : st) : Prop := mkRel {
+    r_ok : locs_ok s -> locs_ok s';
+    r_fault : fault s' = 0 -> fault s = 0;
     r_buf : incl (buf s') (buf s);
-    r_built : forall x, In x (built s') -> In x (built s) \/ sample_ok (buf s) x;
+    r_built : fault s' = 0 -> locs_ok s ->
+              forall x, In x (built s') -> In x (built s) \/ sample_ok (buf s) x;
     r_built_mono : incl (built s) (built s');
     r_prep : forall e, In e (prep s') -> In e (prep s) \/ In (snd e) (built s');
     r_pool_nodup : NoDup (pool s) -> NoDup (pool s');
@@ -107,9 +112,11 @@ Section Safety.
 
   Lemma rel_trans : forall a b d, rel a b -> rel b d -> rel a d.
   Proof.
-    intros a b d [b1 b2 b3 b4 b5 b6 b7] [d1 d2 d3 d4 d5 d6 d7]. constructor.
+    intros a b d [b0 bf b1 b2 b3 b4 b5 b6 b7] [d0 df d1 d2 d3 d4 d5 d6 d7]. constructor.
+    - auto.
+    - auto.
     - eapply incl_tran; eassumption.
-    - intros x Hx. destruct (d2 x Hx) as [H|H]; [apply b2; assumption|].
+    - intros Hf Hok x Hx. destruct (d2 Hf (b0 Hok) x Hx) as [H|H]; [apply b2; auto|].
       right. eapply sample_ok_incl; eassumption.
     - eapply incl_tran; eassumption.
     - intros e He. destruct (d4 e He) as [H|H]; [|right; assumption].
@@ -123,25 +130,35 @@ Section Safety.
   (* transitions that leave buffer, prepared samples and the logs alone *)
   Lemma rel_same : forall s s',
     buf s' = buf s -> prep s' = prep s -> released s' = released s -> built s' = built s ->
+    (locs_ok s -> locs_ok s') -> (fault s' = 0 -> fault s = 0) ->
     rel s s'.
   Proof.
-    intros s s' E1 E2 E3 E4. constructor; unfold pool; rewrite ?E1, ?E2, ?E3, ?E4; intros; auto using incl_refl.
+    intros s s' E1 E2 E3 E4 Hok Hf. constructor; unfold pool; rewrite ?E1, ?E2, ?E3, ?E4; intros; auto using incl_refl.
   Qed.
 
-  Lemma rel_set_filled : forall s v, rel s (set_filled s v).
-  Proof. intros. apply rel_same; reflexivity. Qed.
-  Lemma rel_set_active : forall s v, rel s (set_active s v).
-  Proof. intros. apply rel_same; reflexivity. Qed.
+  Lemma rel_set_filled : forall s v, (locs_ok s -> loc_ok v) -> rel s (set_filled s v).
+  Proof.
+    intros s v H. apply rel_same; try reflexivity; auto.
+    intros Hok. pose proof (H Hok). destruct Hok as [H1 H2]. split; cbn [filled active set_filled]; assumption.
+  Qed.
+  Lemma rel_set_active : forall s v, (locs_ok s -> loc_ok v) -> rel s (set_active s v).
+  Proof.
+    intros s v H. apply rel_same; try reflexivity; auto.
+    intros Hok. pose proof (H Hok). destruct Hok as [H1 H2]. split; cbn [filled active set_active]; assumption.
+  Qed.
   Lemma rel_set_dropped : forall s v, rel s (set_dropped s v).
-  Proof. intros. apply rel_same; reflexivity. Qed.
+  Proof. intros. apply rel_same; auto. Qed.
   Lemma rel_set_padding : forall s v, rel s (set_padding s v).
-  Proof. intros. apply rel_same; reflexivity. Qed.
+  Proof. intros. apply rel_same; auto. Qed.
   Lemma rel_set_headCalls : forall s v, rel s (set_headCalls s v).
-  Proof. intros. apply rel_same; reflexivity. Qed.
+  Proof. intros. apply rel_same; auto. Qed.
   Lemma rel_log_ev : forall s e, rel s (log_ev s e).
-  Proof. intros. apply rel_same; reflexivity. Qed.
-  Lemma rel_raise : forall s f, rel s (raise s f).
-  Proof. intros. unfold raise. destruct (fault s =? 0); [apply rel_same; reflexivity|apply rel_refl]. Qed.
+  Proof. intros. apply rel_same; auto. Qed.
+  Lemma rel_raise : forall s f, f <> 0 -> rel s (raise s f).
+  Proof.
+    intros s f Hf. unfold raise. destruct (fault s =? 0) eqn:E; [|apply rel_refl].
+    apply rel_same; auto. cbn. intro. contradiction.
+  Qed.
 
   Lemma map_filter_sub : forall {A B} (g : A -> B) (f : A -> bool) (l : list A) (pre : list B),
     NoDup (pre ++ map g l) -> NoDup (pre ++ map g (filter f l)).
@@ -158,7 +175,7 @@ Section Safety.
   Proof.
     intros s i. unfold releasePacket. destruct (bget i (buf s)) as [p|] eqn:E; [|apply rel_refl].
     pose proof (bget_In _ _ _ E) as Hin.
-    constructor; cbn [buf built prep released]; intros; auto using incl_refl, incl_bdel.
+    constructor; cbn [buf built prep released fault filled active]; intros; auto using incl_refl, incl_bdel.
     - (* NoDup: p moves from the buffer to the released log *)
       unfold pool in *. cbn [released buf map].
       apply in_split in Hin. destruct Hin as (l1 & l2 & Hs).
@@ -192,6 +209,7 @@ Section Safety.
   Lemma rel_release_filled_head : forall s, rel s (release_filled_head s).
   Proof.
     intro s. unfold release_filled_head. eapply rel_trans; [apply rel_releasePacket|apply rel_set_filled].
+    intros [[H1 H2] _]. split; cbn; [apply inc16_lt|exact H2].
   Qed.
 
   Lemma rel_purgeConsumedLocation : forall s l f, rel s (purgeConsumedLocation s l f).
